@@ -36,17 +36,25 @@ Fixpoint decode_varint_fuel (fuel : nat) (bs : list byte) : option (N * list byt
 Definition decode_varint (bs : list byte) : option (N * list byte) := decode_varint_fuel 10 bs.
 
 (* ---- fields ---- *)
-Inductive wval := WVarint (n : N) | WBytes (b : list byte).
+(* wire types 0 (varint), 2 (length-delimited), 1 (64-bit) and 5 (32-bit).  The messages here have
+   no fixed-width fields, but a parser must skip such fields when another implementation sends
+   them (as unknown fields); groups (wire types 3/4, deprecated) are not modelled: [parse] refuses
+   them, protobuf-go skips a well-formed unknown group. *)
+Inductive wval := WVarint (n : N) | WBytes (b : list byte) | WFixed64 (b : list byte) | WFixed32 (b : list byte).
 Definition field : Type := N * wval.
 
 Definition enc_field (f : field) : list byte :=
   match f with
   | (num, WVarint v) => varint (8 * num) ++ varint v
   | (num, WBytes b) => varint (8 * num + 2) ++ varint (lenN b) ++ b
+  | (num, WFixed64 b) => varint (8 * num + 1) ++ b
+  | (num, WFixed32 b) => varint (8 * num + 5) ++ b
   end.
 Definition enc_fields (fs : list field) : list byte := flat_map enc_field fs.
 
-(* wire types 0 and 2 only (the messages here have no fixed32 / fixed64 / group fields) *)
+(* every field is kept, known or not; the accessors below pick the known ones by number and wire
+   type, so unknown fields and known numbers with another wire type are skipped, as protobuf-go
+   does *)
 Fixpoint parse_fields (fuel : nat) (bs : list byte) : option (list field) :=
   match fuel with
   | O => None
@@ -59,7 +67,7 @@ Fixpoint parse_fields (fuel : nat) (bs : list byte) : option (list field) :=
       | Some (key, r) =>
         let num := key / 8 in
         let wt := key mod 8 in
-        if num =? 0 then None
+        if (num =? 0) || (536870912 <=? num) then None   (* valid field numbers: 1 .. 2^29-1 *)
         else if wt =? 0 then
           match decode_varint r with
           | Some (v, r') =>
@@ -76,6 +84,18 @@ Fixpoint parse_fields (fuel : nat) (bs : list byte) : option (list field) :=
                  end
           | None => None
           end
+        else if wt =? 1 then
+          if (length r <? 8)%nat then None
+          else match parse_fields f (skipn 8 r) with
+               | Some fs => Some ((num, WFixed64 (firstn 8 r)) :: fs)
+               | None => None
+               end
+        else if wt =? 5 then
+          if (length r <? 4)%nat then None
+          else match parse_fields f (skipn 4 r) with
+               | Some fs => Some ((num, WFixed32 (firstn 4 r)) :: fs)
+               | None => None
+               end
         else None
       end
     end
